@@ -197,8 +197,8 @@ func (opts GeneratorOptions) genScalarFieldValue(t *rapid.T, field protoreflect.
 		return protoreflect.ValueOfFloat64(rapid.Float64().Draw(t, name))
 	case protoreflect.EnumKind:
 		enumValues := field.Enum().Values()
-		val := rapid.Int32Range(0, int32(enumValues.Len()-1)).Draw(t, name)
-		return protoreflect.ValueOfEnum(protoreflect.EnumNumber(val))
+		idx := rapid.IntRange(0, enumValues.Len()-1).Draw(t, name)
+		return protoreflect.ValueOfEnum(enumValues.Get(idx).Number())
 	case protoreflect.StringKind:
 		return protoreflect.ValueOfString(rapid.String().Draw(t, name))
 	default:
